@@ -46,7 +46,7 @@ ASSUMPTIONS = [
 ]
 REAL_STUB = {"real": ["onnx_ir._cloner", "Model/Graph/Function/GraphView.clone", "passes.functionalize and the wrapped passes", "serde.to_proto"], "stub": [], "harness_extension_points": []}
 
-CLONE_KINDS = ["model", "model_deep", "graph", "graph_deep", "function", "function_deep", "view", "view_deep", "view_partial", "view_partial_deep", "functionalize", "subgraph_outer_allowed", "subgraph_outer_forbidden", "subgraph_outer_allowed_refused"]
+CLONE_KINDS = ["model", "model_deep", "graph", "graph_deep", "function", "function_deep", "view", "view_deep", "view_partial", "view_partial_deep", "functionalize", "subgraph_outer_allowed", "subgraph_outer_forbidden", "subgraph_outer_allowed_refused", "subgraph_outer_allowed_uncopyable"]
 PASSES = ["RemoveUnusedNodesPass", "IdentityEliminationPass", "NameFixPass", "TopologicalSortPass", "CommonSubexpressionEliminationPass", "DeduplicateInitializersPass", "LiftConstantsToInitializersPass", "InlinePass", "ClearMetadataAndDocStringPass", "OutputFixPass"]
 def _composition(run_seed: int):
     cr = Streams(run_seed).rng("functionalize-composition")
@@ -422,6 +422,35 @@ def _run_case(case: dict) -> dict:
                 return res
             original_obj = sg
             closed = False
+            if kind == "subgraph_outer_allowed_uncopyable":
+                # a deep copy that fails half-way through a node: something in .meta (of a node or of one of its outputs)
+                # cannot be copied - after the cloner has built nodes that read outer values
+                import threading as _threading
+
+                sg_nodes = list(sg)
+                if not sg_nodes:
+                    inc("skipped_empty_subgraph")
+                    return res
+                victim = sg_nodes[case["model_seed"] % len(sg_nodes)]
+                (victim if case["model_seed"] % 2 else victim.outputs[0]).meta["uncopyable"] = _threading.Lock()
+                w0.close()
+                snap_b = snapshot.snapshot(w0, tensors=False)
+                try:
+                    sg.clone(allow_outer_scope_values=True, deep_copy=True)
+                except Exception as e:  # noqa: BLE001
+                    inc("outer_allowed_deep_clone_failed_half_way")
+                    trace.append(("clone", "rejected", type(e).__name__))
+                else:
+                    inc("outer_allowed_deep_clone_of_uncopyable_meta_accepted")
+                    res["event_digest"] = digest(trace)
+                    return res
+                snap_a = snapshot.snapshot(w0, tensors=False)
+                if snap_a != snap_b:
+                    d = snapshot.diff(snap_b, snap_a)
+                    viol("clone-changed-the-original", f"{kind}: the failed clone changed the original: {str(d[:2])[:400]}", key=f"clone-changed-the-original|{kind}")
+                res["event_digest"] = digest(trace)
+                res["distinct"] = [digest((case["model_seed"], kind))]
+                return res
             if kind == "subgraph_outer_allowed_refused":
                 # the subgraph additionally lists an output that nothing defines: cloning it is refused (the value belongs to
                 # the original subgraph) - after the cloner has already copied nodes that read outer values
